@@ -83,7 +83,7 @@ var fieldPool = []struct {
 // genSpec draws a struct type: a key, the marker column, 3..12 further fields.
 func genSpec(r *lib.Rng, id int) (string, []GField) {
 	var spec []GField
-	switch r.Intn(5) {
+	switch r.Intn(6) {
 	case 0:
 		spec = append(spec, GField{"ID", "uint", "primaryKey"})
 	case 1:
@@ -92,6 +92,8 @@ func genSpec(r *lib.Rng, id int) (string, []GField) {
 		spec = append(spec, GField{"ID", "uint32", "primaryKey"})
 	case 3:
 		spec = append(spec, GField{"Key", "int64", "primaryKey;column:k"})
+	case 4: // composite key with a member named ID
+		spec = append(spec, GField{"ID", "int64", "primaryKey;autoIncrement:false"}, GField{"Locale", "string", "primaryKey"})
 	default: // composite key without auto-increment
 		spec = append(spec, GField{"Code", "string", "primaryKey"}, GField{"Seq", "int32", "primaryKey;autoIncrement:false"})
 	}
